@@ -43,6 +43,13 @@ def main():
     name = os.environ.get("SEED_PREFIX", "") + os.path.basename(mdir)
     verdict = dict(property=prop, name=name, summary=meta.get("summary"))
     sh("git checkout -- . && git clean -fdq", cwd=wt)
+    if os.environ.get("SEED_SKIP_CONFIRM"):
+        # re-run of the checks against a change that was confirmed before (bin/seedrerun.py)
+        rc, out = sh(["git", "apply", "--check", os.path.join(mdir, "patch.diff")], cwd=wt)
+        if rc != 0:
+            print(json.dumps(dict(verdict, confirmed=False, stale=True)))
+            return
+        return run_checks(prop, mdir, wt, extra, meta, name, verdict)
     demo_dir = os.path.join(wt, meta["demo_pkg_dir"])
     demo = os.path.join(demo_dir, "zz_seed_demo_test.go")
     shutil.copy(os.path.join(mdir, "demo_test.go"), demo)
@@ -66,8 +73,15 @@ def main():
     sh("git checkout -- . && git clean -fdq", cwd=wt)
     confirmed = all(verdict[k] for k in ("demo_passes_clean", "patch_applies", "demo_fails_mutated", "suite_unchanged"))
     verdict["confirmed"] = confirmed
-    ran = []
     if confirmed:
+        return run_checks(prop, mdir, wt, extra, meta, name, verdict)
+    print(json.dumps(verdict, indent=1))
+
+
+def run_checks(prop, mdir, wt, extra, meta, name, verdict):
+    verdict["confirmed"] = True
+    ran = []
+    if True:
         # the checks are pointed at the scratch worktree (VERIF_REPO) with the patch applied, so that /repo itself -
         # which background sweeps may be using - is never touched; the worktree must be at /repo's HEAD
         rc, head_repo = sh(["git", "-C", "/repo", "rev-parse", "HEAD"])
@@ -86,12 +100,13 @@ def main():
         verdict["checks"] = ran
         verdict["caught_by"] = [r["cmd"].split()[1] for r in ran if r["rc"] == 1]
         dst = os.path.join(VERIF, "seeded", os.environ.get("SEED_DST") or "%s-%s" % (prop, name))
-        shutil.rmtree(dst, ignore_errors=True)
-        os.makedirs(dst)
-        for f in ("patch.diff", "demo_test.go"):
-            shutil.copy(os.path.join(mdir, f), dst)
+        if os.path.abspath(dst) != os.path.abspath(mdir):
+            shutil.rmtree(dst, ignore_errors=True)
+            os.makedirs(dst)
+            for f in ("patch.diff", "demo_test.go"):
+                shutil.copy(os.path.join(mdir, f), dst)
         meta2 = dict(meta)
-        meta2.update(breaks=prop, confirmed_by="bin/seedeval.py: demo passes on the clean tree, fails with the patch; baseline suite (307) unchanged with the patch",
+        meta2.update(base_commit=head_repo.strip()[:7], breaks=prop, confirmed_by="bin/seedeval.py: demo passes on the clean tree, fails with the patch; baseline suite (307) unchanged with the patch",
                      checks_run=ran, caught_by=verdict["caught_by"])
         json.dump(meta2, open(os.path.join(dst, "meta.json"), "w"), indent=1)
     print(json.dumps(verdict, indent=1))
